@@ -32,6 +32,9 @@ Vals == {"neg", "zero", "huge", "posinf", "neginf", "nan", "frac"}
 Entry(ty, name, tags, src, val, cnt) == [ty |-> ty, name |-> name, tags |-> tags, src |-> src, val |-> val, cnt |-> cnt, ts |-> "t1"]
 EntryPool ==
   {Entry("counter", "c", tg, src, v, 0) : tg \in {"none", "two"}, src \in {"", "h1"}, v \in {"neg", "zero", "huge"}} \cup
+  \* "srclike": the tags of "one" plus a tag spelled like the source suffix of a tags key (s:h1), no source: its tags key is the same STRING
+  \* as that of a series with the tags of "one" and source h1 (the gauges below) -- the key is not injective, the labels must still differ
+  {Entry("counter", "c", "srclike", "", v, 0) : v \in {"neg", "huge"}} \cup
   {Entry("gauge", "g", "one", src, v, 0) : src \in {"", "h1", "h2"}, v \in Vals} \cup
   {Entry("timer", "t", tg, "h1", v, cnt) : tg \in {"none", "one"}, v \in {"empty", "one-nan", "three-mixed", "two-inf", "many-same"}, cnt \in {"len", "ten", "frac", "zero"}} \cup
   {Entry("set", "s", "two", src, v, 0) : src \in {"", "h1"}, v \in {"size0", "size1", "size2-utf8"}}
@@ -53,6 +56,11 @@ Next == /\ Cardinality(mm) < MaxEntries
         /\ UNCHANGED comp
 Spec == Init /\ [][Next]_<<mm, comp>>
 Emit == mm = {} \/ PrintT(<<"CASE", ToJson([kind |-> "map", mm |-> mm, comp |-> comp])>>)
+\* maps that always run whatever the sampling: two series of different names whose tags keys are the same string while their tags and
+\* sources differ (round-7 seeded change C14 m1: labels cached per tags key)
+CoreMaps == {{c, g} : c \in {e \in EntryPool : e.tags = "srclike"}, g \in {e \in EntryPool : e.ty = "gauge" /\ e.src = "h1" /\ e.val \in {"neg", "frac"}}}
+ASSUME \A m \in CoreMaps : \A c \in {[type |-> "none", level |-> 0], [type |-> "zlib", level |-> 6], [type |-> "lz4", level |-> 9]} :
+         PrintT(<<"CASE", ToJson([kind |-> "map", mm |-> m, comp |-> c, core |-> TRUE])>>)
 ASSUME \A e \in EventPool : \A c \in {[type |-> "none", level |-> 0], [type |-> "zlib", level |-> 0], [type |-> "zlib", level |-> 6], [type |-> "lz4", level |-> 9]} :
          PrintT(<<"CASE", ToJson([kind |-> "event", ev |-> e, comp |-> c])>>)
 =============================================================================
